@@ -94,9 +94,10 @@ Inductive ctxarg := CTriple | CQuad (oa : option garg).
 
 Definition graph_triples (s : store) (c : cid) : list triple := q_triples pall c (quads s).
 
-(* Dataset.contexts(): a full pass re-creates the default graph when the store
-   does not list it (self.graph(DATASET_DEFAULT_GRAPH_ID) -> store.add_graph);
-   ConjunctiveGraph.contexts() only lists *)
+(* HISTORICAL (before the "fix:" commit 6844ed54): a full pass of Dataset.contexts()
+   re-created the default graph when the store did not list it
+   (self.graph(DATASET_DEFAULT_GRAPH_ID) -> store.add_graph).  Now the default graph
+   object is handed out without registering it; kept for the historical lemmas. *)
 Definition touch_default (d : ds) : ds :=
   if is_ds d then (if memb N.eqb 0%N (known (st d)) then d else set_st d (st_add_graph (st d) 0%N)) else d.
 
@@ -105,16 +106,15 @@ Definition iadd (s : store) (c : cid) (ts : list triple) : store :=
 
 (* ConjunctiveGraph._graph(c, copy), as repaired by the "fix:" commit for F19:
    a Graph object is resolved to the same-store graph of its name (get_graph
-   walks self.contexts(), which for a Dataset re-creates the default graph);
+   walks self.contexts(), which since 6844ed54 writes nothing);
    its triples are copied in only [if copy and c.store is not self.store] *)
 Definition cg_graph (d : ds) (oa : option garg) (copy : bool) : ds * option cid :=
   match oa with
   | None => (d, None)
   | Some (GId c) => (d, Some c)                       (* get_context: no write *)
-  | Some (GView c) => (touch_default d, Some c)
+  | Some (GView c) => (d, Some c)                     (* get_graph walks self.contexts(): a read *)
   | Some (GForeign c ts) =>
-      let d1 := touch_default d in
-      (if copy then set_st d1 (iadd (st d1) c ts) else d1, Some c)
+      (if copy then set_st d (iadd (st d) c ts) else d, Some c)
   end.
 
 (* the historical _graph (finding F19, repaired): every Graph object was
@@ -220,6 +220,13 @@ Definition cg_len (d : ds) : N := st_len (st d) None.
 Definition ds_graphs (d : ds) : ds * list cid :=
   if is_ds d then
     let k := known (st d) in
+    (d, if memb N.eqb 0%N k then k else k ++ [0%N])   (* the default graph is listed, not registered *)
+  else (d, known (st d)).
+
+(* before 6844ed54 the listing registered the default graph with the store *)
+Definition ds_graphs_hist (d : ds) : ds * list cid :=
+  if is_ds d then
+    let k := known (st d) in
     if memb N.eqb 0%N k then (d, k) else (set_st d (st_add_graph (st d) 0%N), k ++ [0%N])
   else (d, known (st d)).
 
@@ -267,13 +274,11 @@ Definition ds_graph_name (d : ds) (oa : option garg) : cid :=
   match oa with None => FRESH_BASE + fresh d | Some a => arg_name a end.
 
 (* Dataset.graphs(triple): the contexts of the triple, and the default graph
-   re-created and yielded when it is not among them; ConjunctiveGraph.contexts(triple)
-   just lists *)
+   yielded (not registered) when it is not among them;
+   ConjunctiveGraph.contexts(triple) just lists *)
 Definition cg_contexts_of (d : ds) (t : triple) : ds * list cid :=
   let l := ctxs_of t (quads (st d)) in
-  if is_ds d then
-    if memb N.eqb 0 l then (d, l) else (set_st d (st_add_graph (st d) 0), l ++ [0])
-  else (d, l).
+  if is_ds d then (d, if memb N.eqb 0 l then l else l ++ [0]) else (d, l).
 
 Definition do_op (d : ds) (o : op) : ds * res :=
   match o with
@@ -423,8 +428,18 @@ Definition sp_step (sp : dspec) (o : op) : dspec :=
 Definition sp_graph (sp : dspec) (c : cid) (p : pat) : list triple := q_triples p c (sq sp).
 Definition sp_union (sp : dspec) (p : pat) : list triple := filter (matches p) (all_triples (sq sp)).
 
-(* with default_union the default graph IS the merged view *)
+(* what the property prescribes: a read restricted to a graph answers from that
+   graph; one that names no graph answers from the merged view under
+   default_union and from the default graph otherwise *)
 Definition sp_triples (sp : dspec) (p : pat) (g : option cid) (du : bool) : list triple :=
+  match g with
+  | None => if du then sp_union sp p else sp_graph sp 0%N p
+  | Some c => sp_graph sp c p
+  end.
+
+(* what the code does (finding F20): under default_union a read that NAMES the
+   default graph is answered from the merged view *)
+Definition sp_triples_code (sp : dspec) (p : pat) (g : option cid) (du : bool) : list triple :=
   match g with
   | None => if du then sp_union sp p else sp_graph sp 0%N p
   | Some c => if du && N.eqb c 0 then sp_union sp p else sp_graph sp c p
@@ -501,10 +516,40 @@ Definition leaks (sp : dspec) (o : op) : bool :=
   | _ => false
   end.
 
-Fixpoint leak_run (sp : dspec) (ops : list op) : bool :=
-  match ops with
-  | [] => false
-  | o :: r => leaks sp o || leak_run (sp_step sp o) r
+(* 2 (F20): under default_union a read restricted to the DEFAULT graph by name
+   (triples((..,default)) / triples(context=default) / (s,p,o,default) in ds) is
+   asked while the merged view and the default graph differ on the pattern *)
+Definition aliases (sp : dspec) (o : op) : bool :=
+  match o with
+  | OTriples p ca kw du =>
+      negb (tseteqb (sp_triples_code sp p (eff_graph ca kw) du) (sp_triples sp p (eff_graph ca kw) du))
+  | OContains p ca du =>
+      negb (Bool.eqb (is_nil (sp_triples_code sp p (eff_graph ca None) du)) (is_nil (sp_triples sp p (eff_graph ca None) du)))
+  | _ => false
   end.
 
-Definition kf (c : case) : N := if leak_run sp_init (c_ops c) then 1%N else 0%N.
+(* the steps whose own answer is exempt from the specification *)
+Definition waived (sp : dspec) (o : op) : bool := leaks sp o || aliases sp o.
+
+Fixpoint trig_run (f : dspec -> op -> bool) (sp : dspec) (ops : list op) : bool :=
+  match ops with
+  | [] => false
+  | o :: r => f sp o || trig_run f (sp_step sp o) r
+  end.
+Definition leak_run := trig_run leaks.
+
+Definition kf (c : case) : N :=
+  if trig_run aliases sp_init (c_ops c) then 2%N
+  else if leak_run sp_init (c_ops c) then 1%N else 0%N.
+
+(* the same checker with ONLY the answers of the waived steps exempt: every other
+   answer and every snapshot of the history stay judged *)
+Fixpoint spec_run_w (c : case) (sp : dspec) (ops : list op) (o : obs) : bool :=
+  match ops, o with
+  | [], [] => true
+  | x :: r, (rs, sn) :: o' =>
+      let sp' := sp_step sp x in
+      (waived sp x || res_ok (c_ds c) sp x rs) && snap_ok c sp' sn && spec_run_w c sp' r o'
+  | _, _ => false
+  end.
+Definition spec_ok_w (c : case) (o : obs) : bool := spec_run_w c sp_init (c_ops c) o.
